@@ -166,9 +166,10 @@ def run(ctx):
         xs = np.full(64, 0.01 + 0.02j)
         with warnings.catch_warnings():
             warnings.simplefilter("ignore")
-            gv(**cfgA); np.random.seed(3); EDFA(optical_signal(xs), 20, 5, 0.3 * gv.fs)
-            gv(**cfgB); np.random.seed(3); after = EDFA(optical_signal(xs), 20, 5, 0.3 * gv.fs)
-            bw_used = 0.3 * gv.fs
+            # the same bandwidth in hertz (and the same record length) under both configurations: nothing designed for the first rate may be reused
+            bw_used = [4e9, 20e9, 5e9][it]
+            gv(**cfgA); np.random.seed(3); EDFA(optical_signal(xs), 20, 5, bw_used)
+            gv(**cfgB); np.random.seed(3); after = EDFA(optical_signal(xs), 20, 5, bw_used)
             with fresh_repo() as lib:
                 lib["typing"].gv(**cfgB); np.random.seed(3)
                 fresh = lib["devices"].EDFA(lib["typing"].optical_signal(xs), 20, 5, bw_used)
